@@ -91,7 +91,10 @@ func loadProgram(dir string) (*Program, error) {
 	P := &Program{prog: prog, pkgs: pkgs, spkgs: spkgs, funcs: map[string]*ssa.Function{}, byPkg: map[string]*types.Package{}}
 	for fn := range ssautil.AllFunctions(prog) {
 		if fn.Synthetic != "" && !strings.HasPrefix(fn.Synthetic, "instance of") {
-			continue
+			// package initialisers of /repo packages can be put under contract (key "<pkg>.init")
+			if !(fn.Synthetic == "package initializer" && fn.Pkg != nil && strings.HasPrefix(fn.Pkg.Pkg.Path(), "github.com/FollowTheProcess/spok")) {
+				continue
+			}
 		}
 		k := funcKey(fn)
 		if old, ok := P.funcs[k]; ok {
